@@ -19,7 +19,7 @@ or left where the last run ended, setup() is called again, or the component's da
 re-setup.  Every run is judged by (i)-(iii) for the values current at that run; the last run is also compared,
 argument by argument of scipy.optimize.minimize, with a fresh Problem declared directly with the final values.
 
-Global-optimizer stratum (own generator, 2 problems per quick shard): the optimizers the driver calls through
+Global-optimizer stratum (own generator, 3 problems per quick shard): the optimizers the driver calls through
 other scipy entry points than `minimize` - shgo and differential_evolution (constraints, bounds, linear flag,
 holes in array bounds; shgo with iters / n / stopped by maxiter, differential evolution with polish on/off,
 immediate/deferred updating, popsize), dual_annealing (with / without local search, stopped by maxiter) and
@@ -106,6 +106,9 @@ ASSUMPTIONS = [
     'differential_evolution / dual_annealing / basinhopping a seed; a miss of the optimum is not held against '
     'OpenMDAO unless a callback/argument monitor saw a wrong value; basinhopping (no bounds in scipy, emulated by '
     'the driver through accept_test) is not judged against the design-variable bounds',
+    'callback values are compared with the reference only at finite points with |x| <= 1e12 (scipy.optimize.shgo '
+    'evaluates every constraint once at an uninitialised array, np.empty(dim), while converting it) and with the '
+    'round-off tolerance of the sum of the magnitudes of the terms (1e-13 relative) in addition to 1e-9 of the value',
     'failpoint stratum: the twin repeats the evaluation sequence of the clean run (deterministic optimizers / '
     'fixed seeds); when the failpoint is not reached the case is discarded; run_driver() may raise anything or '
     'report failure, only a reported success is a violation',
@@ -304,6 +307,24 @@ class ScaledRef:
     def g(self, xs, key):
         return self.ref.con_vals(self.z(xs))[key]['scaled']
 
+    def f_mag(self, xs):
+        """sum of the magnitudes of the terms of the scaled objective (what its round-off is relative to)."""
+        r = self.ref
+        az = np.abs(self.z(xs))
+        s_, a_ = af.scaler_adder(r.obj['sc'], 1)
+        ufac, uoff = af.unit_affine(r.obj['munits'], r.obj['units'])
+        return float(abs(s_[0]) * (abs(ufac) * (0.5 * az @ np.abs(r.Q) @ az + np.abs(r.c) @ az + abs(uoff))
+                                   + abs(a_[0])))
+
+    def g_mag(self, xs, key):
+        r = self.ref
+        c = [c_ for c_ in r.cons if c_['key'] == key][0]
+        az = np.abs(self.z(xs))
+        s_, a_ = af.scaler_adder(c['sc'], c['size'])
+        ufac, uoff = af.unit_affine(c['munits'], c['units'])
+        return np.abs(s_) * (abs(ufac) * (np.abs(r.A[c['rows']]) @ az + np.abs(r.b[c['rows']]) + abs(uoff))
+                             + np.abs(a_))
+
     def grad_f(self, xs):
         J = self.ref.jac(self.z(xs), scaled=True)
         return np.concatenate([J[('f', d['key'])].ravel() for d in self.ref.dvs])
@@ -350,6 +371,16 @@ class Monitor:
         self.cons_by_key = {c['key']: c for c in ref.cons}
         self.args_label = None  # mechanism seen in the arguments of scipy.optimize.minimize (_arguments_label)
 
+    def _comparable(self, x):
+        """Values are compared with the reference only at points where the comparison means something: scipy's
+        shgo probes every constraint once at an UNINITIALISED array (standardize_constraints(constraints,
+        np.empty(dim)) -> PreparedConstraint -> fun(x0)): 1e50, inf, nan, denormals, whatever the memory held."""
+        x = np.asarray(x, float)
+        if np.all(np.isfinite(x)) and (x.size == 0 or np.max(np.abs(x)) <= 1e12):
+            return True
+        self.acc.count('obs:callback-at-meaningless-point-not-compared')
+        return False
+
     def uninstall(self):
         """drop the wrappers (instance attributes) so that the driver can be monitored again in a later run."""
         for nm in ('_objfunc', '_con_val_func', '_confunc', '_gradfunc', '_congradfunc'):
@@ -363,10 +394,10 @@ class Monitor:
         def objfunc(x):
             r = o_obj(x)
             self.last_obj_x = np.array(x, float)
-            if drv._exc_info is None:
+            if drv._exc_info is None and self._comparable(x):
                 fref = self.sr.f(x)
                 self.acc.count('obs:callback-objective')
-                if abs(float(np.ravel(r)[0]) - fref) > 1e-9 * (1 + abs(fref)):
+                if abs(float(np.ravel(r)[0]) - fref) > 1e-9 * (1 + abs(fref)) + 1e-13 * self.sr.f_mag(x):
                     self.obj_wrong += 1
             return r
 
@@ -382,7 +413,7 @@ class Monitor:
 
         def gradfunc(x):
             r = o_g(x)
-            if drv._exc_info is None:
+            if drv._exc_info is None and self._comparable(x):
                 self.acc.count('obs:callback-gradient')
                 gr = self.sr.grad_f(x)
                 tol = 1e-8 * (1 + np.max(np.abs(gr)))
@@ -396,7 +427,7 @@ class Monitor:
 
         def congradfunc(x, name, dbl, idx):
             r = o_cg(x, name, dbl, idx)
-            if drv._exc_info is None:
+            if drv._exc_info is None and self._comparable(x):
                 self.acc.count('obs:callback-constraint-gradient')
                 row = self.sr.jac_g(x, name)[int(idx)]
                 r_ = np.asarray(r, float).ravel()
@@ -427,6 +458,8 @@ class Monitor:
         drv._congradfunc = congradfunc
 
     def _check_value(self, x, name, idx, r, kind):
+        if not self._comparable(x):
+            return
         self.acc.count('obs:callback-constraint')
         idx = int(idx)
         cands = [('now', x)]
@@ -444,8 +477,10 @@ class Monitor:
                 opts = [('both', g[idx] - lo)]
             else:
                 opts = [('lower', g[idx] - lo), ('upper', hi - g[idx])]
+            mag = self.sr.g_mag(xx, name)[idx]
             for side, v in opts:
-                if abs(r - v) <= 1e-9 * (1 + abs(v)):
+                # (round-off of the affine map: relative to the terms that are summed, not to their sum)
+                if abs(r - v) <= 1e-9 * (1 + abs(v)) + 1e-13 * mag:
                     # the residual of an absent bound (+-1e30 -+ g) is a legitimate, always satisfied
                     # entry; it does not present any bound of the element to the optimizer
                     matched = (tag, side if abs(v) < af.INF_BOUND / 10 else 'none')
@@ -927,7 +962,10 @@ def run_and_judge(p, drv, spec, ref, ex, opt, variant, case, acc, fp, pre='', wa
                 acc.skip('trust-constr-keep_feasible-refuses-warm-start-on-the-boundary')
                 info['status'] = 'refused'
                 return info
-            if neg:
+            if 'omv: injected failure' in msg:
+                # (failpoint stratum, run after the fault was removed)
+                key = 'exception-of-the-aborted-run-raised-again:%s' % ('global' if glob else 'minimize')
+            elif neg:
                 key = 'neg-scaler:%s:raises:%s@%s' % (variant, type(e).__name__, where)
             elif glob:
                 holes = any('N' in (c.get('pat') or '') for c in spec['cons'])
@@ -1538,7 +1576,7 @@ def _stratum(spec):
 def shards(tier, seed):
     nsh = 16 if tier == 'quick' else 32
     nprob = 6 if tier == 'quick' else 40
-    ng = 2 if tier == 'quick' else 10
+    ng = 3 if tier == 'quick' else 10
     return [{'seed': seed * 100003 + 7919 * k + 11, 'n': nprob, 'ng': ng, 'tier': tier} for k in range(nsh)]
 
 
